@@ -59,6 +59,7 @@ def enumerate_cases(tier):
             "wind_dir": _values("wind_dir", wd),
             "timestamps": None if ts < 0 else [f"2024-01-01T{h:02d}:00" for h in range(ts)],
             "drive": True,
+            "origin": bool((us + mo + ws + wd + ts) % 2),  # with / without a geographic reference origin
         }
         cases.append(case)
     return cases
@@ -104,6 +105,7 @@ def _case(draw):
             )
         )
     case["drive"] = False
+    case["origin"] = draw(st.booleans())
     return case
 
 
@@ -156,15 +158,19 @@ def _build_direct(case):
         z0=case["z0"],
         timestamps=case["timestamps"],
     )
-    dom = DomainConfig(nx=4, ny=4, xmax=40.0, ymax=40.0, nz=2, modes=(4, 4), halo=0.0)
+    dom = DomainConfig(nx=4, ny=4, xmax=40.0, ymax=40.0, nz=2, modes=(4, 4), halo=0.0,
+                       **({"ref_lat": 0.0, "ref_lon": 0.0} if case.get("origin") else {}))
     return BLDFMConfig(domain=dom, towers=[TowerConfig(**_TOWERS[0])], met=met)
 
 
 def _build_parsed(case):
     from bldfm.config_parser import parse_config_dict
 
+    dom = dict(_DOMAIN)
+    if case.get("origin"):
+        dom.update(ref_lat=0.0, ref_lon=0.0)
     return parse_config_dict(
-        {"domain": dict(_DOMAIN), "towers": [dict(t) for t in _TOWERS], "met": _met_dict(case),
+        {"domain": dom, "towers": [dict(t) for t in _TOWERS], "met": _met_dict(case),
          "solver": {"footprint": True, "precision": "double"}}
     )
 
